@@ -1,14 +1,66 @@
 #!/usr/bin/env python3
-"""Run a list of mutants: tools/mutbatch.py tools/mutants/<file>.json  -> prints CAUGHT/NOT-CAUGHT per mutant.
-Each entry: {"prop": "C01", "file": "client.go", "old": "...", "new": "...", "tier": "quick", "note": "..."}"""
-import json, subprocess, sys
-ents = json.load(open(sys.argv[1]))
-only = set(sys.argv[2:])
-for e in ents:
-    if only and e["prop"] not in only:
-        continue
+"""Run lists of hand-made mutants against the checks (sensitivity evidence).
+
+  tools/mutbatch.py [-j N] [--out results.json] tools/mutants/<file>.json [...] [--only C01,C02]
+
+Each entry: {"prop": "C01", "file": "client.go", "old": "...", "new": "...", "tier": "quick", "note": "...",
+             "expected": "caught"|"not-caught", "why_not": "..."}
+tools/mut.sh applies `old`->`new` (first occurrence) in a scratch worktree of /repo HEAD, runs `./vf <tier> <prop>`
+there and removes the worktree. Outcome per mutant: CAUGHT (exit 1 + VIOLATION), NOT-CAUGHT (exit 0), INFRA (exit 2:
+hang / crash of the test process), NOBUILD, NOPATTERN.
+"""
+import json, subprocess, sys, os
+from concurrent.futures import ThreadPoolExecutor
+
+args = sys.argv[1:]
+jobs, out, only, files = 1, None, None, []
+i = 0
+while i < len(args):
+    a = args[i]
+    if a == "-j":
+        jobs = int(args[i + 1]); i += 2
+    elif a == "--out":
+        out = args[i + 1]; i += 2
+    elif a == "--only":
+        only = set(args[i + 1].split(",")); i += 2
+    else:
+        files.append(a); i += 1
+
+ents = []
+for f in files:
+    for n, e in enumerate(json.load(open(f))):
+        e["_src"] = "%s#%d" % (os.path.basename(f), n)
+        if only and e["prop"] not in only:
+            continue
+        ents.append(e)
+
+
+def run(e):
     r = subprocess.run(["/verif/tools/mut.sh", e["prop"], e.get("tier", "quick"), e["file"], e["old"], e["new"]],
                        capture_output=True, text=True)
-    last = [l for l in r.stdout.splitlines() if l.startswith("mutant rc=")]
-    viol = [l.strip()[:220] for l in r.stdout.splitlines() if "VF-VIOLATION" in l][:1]
-    print("%s | %s | %s | %s" % (e["prop"], e.get("note", ""), last[-1] if last else r.stdout[-200:], viol[0] if viol else ""), flush=True)
+    o = r.stdout
+    if "pattern not found" in o:
+        res = "NOPATTERN"
+    elif "DOES NOT BUILD" in o:
+        res = "NOBUILD"
+    else:
+        last = [l for l in o.splitlines() if l.startswith("mutant rc=")]
+        rc = last[-1].split("=")[1].split()[0] if last else "?"
+        res = {"1": "CAUGHT", "0": "NOT-CAUGHT", "2": "INFRA"}.get(rc, "rc=" + rc)
+    viol = [l.strip()[:260] for l in o.splitlines() if "VF-VIOLATION" in l][:1]
+    rec = {"src": e["_src"], "prop": e["prop"], "file": e["file"], "note": e.get("note", ""), "expected": e.get("expected", "caught"),
+           "result": res, "violation": viol[0] if viol else "", "why_not": e.get("why_not", "")}
+    print("%s | %s | %s | exp=%s | %s | %s" % (rec["prop"], rec["src"], rec["result"], rec["expected"], rec["note"][:90], rec["violation"][:140]), flush=True)
+    return rec
+
+
+with ThreadPoolExecutor(max_workers=jobs) as ex:
+    recs = list(ex.map(run, ents))
+if out:
+    old = []
+    if os.path.exists(out):
+        old = [r for r in json.load(open(out)) if r["src"] not in {x["src"] for x in recs}]
+    json.dump(old + recs, open(out, "w"), indent=1)
+c = sum(1 for r in recs if r["result"] == "CAUGHT")
+print("summary: %d mutants, %d caught, %d not caught, %d other" % (len(recs), c, sum(1 for r in recs if r["result"] == "NOT-CAUGHT"),
+                                                                 len(recs) - c - sum(1 for r in recs if r["result"] == "NOT-CAUGHT")))
